@@ -44,6 +44,13 @@ theorem verdict_depends_on_checks_only {π : Type} (acc acc' : π → Str → Op
     propValid acc reg ff fontFace p = propValid acc' reg ff fontFace p' :=
   propValid_congr acc acc' reg ff fontFace p p' hn hp he h
 
+/-- The compiled driver evaluates patterns with sets of match lengths (`acceptsFast`: duplicates removed at every
+node — the list-of-successes semantics is exponential on ambiguous patterns); it is the same function, so every
+verdict the correspondence compares is the verdict of the model these theorems speak about. -/
+theorem driver_acceptance_is_model_acceptance : accReFast = accRe := by
+  funext r s
+  simp [accReFast, accRe, acceptsFast_eq]
+
 /-! ## T13.2 — case insensitivity -/
 
 /-- T13.2 `case_insensitive` (general lemma over `Re`): a pattern whose classes are closed under ASCII case
